@@ -14,6 +14,9 @@ POOL = [
     D(svc=["s1", "s2"], ev=["e1"], resp="optional"), D(svc=["s1", "s2"], sf="args"), D(svc=["s2"], ev=["e1"]),
     D(svc=["s1"], st=["b"], tt=["timer"]), D(svc=["s2"], st=["a"], tt=["startup"], resp="optional"),
     D(st=["a"]), D(ev=["e1"], tt=["shutdown", "startup"]), D(svc=["s1", "s2"], tt=["shutdown", "startup"], resp="optional", sf="args"),
+    # a name with an upper-case letter; names spelled the other way (alt: pyscript.S1 = pyscript.s1 for HA)
+    D(svc=["S3"]), D(svc=["S3"], resp="optional", ev=["e2"]), D(svc=["S3", "s1"], sf="args"), D(svc=["s1"], alt=True),
+    D(svc=["S3", "s2"], st=["b"], resp="optional", alt=True),
 ]
 
 
@@ -60,12 +63,10 @@ def mc_jobs(ctx):
     ]
     for w in ("W_NoTwoDeclarers", "W_NoRefusal"):
         jobs.append((w, {"DeclSet": "{1}", "Ctx": '{"c1", "c2"}', "MaxSteps": 3, "Acts": acts("define", "del")}, [w], [], {w}))
-    # the new parts are reachable: a name spelled with an upper-case letter redeclared; a service of a module whose importer
-    # was reloaded; a failed load after a @service
-    jobs.append(("W_NoMixedCaseRedeclared", {"DeclSet": "{17}", "Name": '{"f"}', "MaxSteps": 2, "Acts": acts("define")},
-                 ["W_NoMixedCaseRedeclared"], [], {"W_NoMixedCaseRedeclared"}))
-    jobs.append(("W_NoFailedLoad", {"DeclSet": "{18}", "Name": '{"f"}', "MaxSteps": 1, "Acts": acts("reload", "fail")},
-                 ["W_NoFailedLoad"], [], {"W_NoFailedLoad"}))
+    # round 3: a name spelled with an upper-case letter redeclared, then a load that fails after a @service
+    w = "W_NoMixedCaseRedeclaredNorFailedLoad"
+    jobs.append((w, {"DeclSet": "{17}", "Name": '{"f"}', "Ctx": '{"c1", "c2"}', "MaxSteps": 3, "Acts": acts("define", "reload", "fail")},
+                 [w], [], {w}))
     return jobs
 
 
@@ -100,5 +101,5 @@ def main(ctx):
     sizes = {"sim": ctx.pick(6, 120), "depth": ctx.pick(8, 14), "rnd": ctx.pick(10, 150), "steps": ctx.pick(18, 40),
              "simsplit": ctx.pick(3, 6)}
     L.main_common(ctx, "C12", mc_jobs(ctx),
-                  {"MaxGen": 8, "DeclSet": "{1, 2, 3, 4, 5, 8, 11, 12, 14, 15}", "DeclSet_masked": "{1, 2, 3, 4, 5, 8, 15}"},
+                  {"MaxGen": 8, "DeclSet": "{1, 2, 3, 4, 5, 8, 11, 12, 14, 15, 17, 18, 20, 21}", "DeclSet_masked": "{1, 2, 3, 4, 5, 8, 11, 15, 17, 18}"},
                   POOL, sizes)
